@@ -537,3 +537,13 @@ def ob_e(ob):
             ob.verdict(v, lab)
     x, y = z3.Reals("x y")
     expect_refuted(ob, x * x + y * y == 1, [x * x + y * y + 0 * x == 1 - y * y], "twin: a norm that misses one component", "nra")
+
+
+# ---- shared obligation: NAC vectors rotate with the molecule because they are gradient-type contractions of the exact Fock-matrix derivative ----
+@obligation(PID, "h", title="[shared with C17.h] nonadiabatic coupling vectors: the derivative operators assembled in nac.py (overlap, exchange, Coulomb and core-attraction parts) contracted with a symmetric transition density give, for every atom and Cartesian direction, the exact derivative of sum_{mu nu} B_{mu nu} F_{mu nu} at fixed ground-state density — so the coupling vector is a gradient-type (rotation-covariant) quantity")
+def ob_h_shared(ob):
+    """NAC vectors are covariant under rigid motions because they are derivatives of a rotation-invariant scalar"""
+    from . import C17 as _m  # imported lazily: the harness modules share obligations in both directions
+
+    ob.note("this obligation is the one registered as C17.h; it is also decided here because covariance of the coupling vectors under rotation follows from their being the exact derivative of the invariant scalar sum B F; keeping only part of an operator block is not a covariant operation")
+    _m.ob_h(ob)
